@@ -60,7 +60,38 @@ def expr(e, env):
         if head in env.locals and (env.locals[head], path) in env.attrs:
             f, ty = env.attrs[(env.locals[head], path)]
             return f(head), ty
-        fail(e, "unknown name")
+        if not (isinstance(e, ast.Attribute) and e.attr == "size"):
+            fail(e, "unknown name")
+    if isinstance(e, ast.Subscript):
+        b, tb = expr(e.value, env)
+        if isinstance(e.slice, ast.Slice):
+            if tb != "LIST Z" or e.slice.step is not None or e.slice.lower is None or e.slice.upper is None:
+                fail(e, "slice")
+            lo, tl = expr(e.slice.lower, env)
+            hi, th = expr(e.slice.upper, env)
+            return "(firstn (Z.to_nat (%s - %s)) (skipn (Z.to_nat %s) %s))" % (hi, lo, lo, b), "LIST Z"
+        if tb == "FMTS":
+            k, tk = expr(e.slice, env)
+            return k, "FMT"
+        i, ti = expr(e.slice, env)
+        if tb != "LIST Z" or ti != "Z":
+            fail(e, "subscript")
+        return "(nth (Z.to_nat %s) %s 0)" % (i, b), "Z"
+    if isinstance(e, ast.Call) and dotted(e.func) == "len" and len(e.args) == 1:
+        b, tb = expr(e.args[0], env)
+        if not tb.startswith("LIST "):
+            fail(e, "len of a non-list")
+        return "(Z.of_nat (length %s))" % b, "Z"
+    if isinstance(e, ast.Call) and isinstance(e.func, ast.Attribute) and e.func.attr == "unpack" and len(e.args) == 1:
+        f, tf = expr(e.func.value, env)
+        a, ta = expr(e.args[0], env)
+        if tf != "FMT" or ta != "LIST Z":
+            fail(e, "unpack")
+        return "(gen_unpack %s %s)" % (f, a), "LIST Z"
+    if isinstance(e, ast.Attribute) and e.attr == "size":
+        f, tf = expr(e.value, env)
+        if tf == "FMT":
+            return "(gen_fmt_size %s)" % f, "Z"
     if isinstance(e, ast.Call):
         fn = dotted(e.func)
         if fn in env.calls and not e.keywords and len(e.args) == env.calls[fn][0]:
@@ -129,6 +160,9 @@ def expr(e, env):
             fail(e, "chained comparison")
         a, ta = expr(e.left, env)
         op = e.ops[0]
+        if isinstance(op, (ast.In, ast.NotIn)) and dotted(e.comparators[0]) is not None and env.table.get(dotted(e.comparators[0]), ("", ""))[1] == "FMTS":
+            t = "(gen_has_format %s)" % a
+            return (t if isinstance(op, ast.In) else "(negb %s)" % t), "B"
         if isinstance(op, (ast.In, ast.NotIn)):
             if not isinstance(e.comparators[0], ast.Tuple):
                 fail(e, "'in' needs a literal tuple")
@@ -194,25 +228,112 @@ def always_returns(stmts):
 
 
 OPT_ANNOTATIONS = {"Optional[TCPMatch]": "OPT TMATCH", "Optional[HTTPRecord]": "OPT HTTPREC"}
-COQ_TYPES = {"Z": "Z", "N": "N", "B": "bool", "MT": "mtype", "TCPREC": "tcp_rec", "MTUREC": "mtu_rec", "HTTPREC": "rec", "TMATCH": "(mtype * tcp_rec)"}
+COQ_TYPES = {"LIST Z": "(list Z)", "FMT": "Z", "Z": "Z", "N": "N", "B": "bool", "MT": "mtype", "TCPREC": "tcp_rec", "MTUREC": "mtu_rec", "HTTPREC": "rec", "TMATCH": "(mtype * tcp_rec)"}
 
 
 def coq_type(ty):
     return "(option %s)" % coq_type(ty[4:]) if ty.startswith("OPT ") else COQ_TYPES[ty]
 
 
+STRUCT_FORMATS = {"!B": ("1", "[a]", "[a]"), "!H": ("2", "[a; b]", "[a * 256 + b]"),
+                  "!II": ("8", "[a; b; c; d; e; f; g; h]", "[((a * 256 + b) * 256 + c) * 256 + d; ((e * 256 + f) * 256 + g) * 256 + h]"), "": ("0", "[]", "[]")}
+
+
+def gen_options(repo, consts):
+    src = open(os.path.join(repo, "pyp0f/net/layers/tcp/options.py")).read()
+    tree = ast.parse(src)
+    kinds = {}
+    fmts = {}
+    for n in tree.body:
+        if isinstance(n, ast.ClassDef) and n.name == "TCPOption":
+            for m in n.body:
+                if isinstance(m, ast.Assign) and isinstance(m.value, ast.Constant) and isinstance(m.value.value, int):
+                    kinds[m.targets[0].id] = m.value.value
+        if isinstance(n, ast.Assign) and dotted(n.targets[0]) == "OPTION_FORMATS":
+            if not isinstance(n.value, ast.Dict):
+                fail(n, "OPTION_FORMATS")
+            for k, v in zip(n.value.keys, n.value.values):
+                if not (dotted(k) or "").startswith("TCPOption.") or not (isinstance(v, ast.Call) and dotted(v.func) == "Struct" and isinstance(v.args[0], ast.Constant)):
+                    fail(n, "OPTION_FORMATS entry")
+                f = v.args[0].value
+                if f not in STRUCT_FORMATS:
+                    fail(v, "struct format %r" % f)
+                fmts[kinds[dotted(k).split(".")[1]]] = f
+    if not kinds or not fmts:
+        raise Unsupported("TCPOption / OPTION_FORMATS not found")
+    c2 = dict(consts)
+    for k, v in kinds.items():
+        c2["TCPOption." + k] = ("(%d)" % v, "Z")
+    pre = ["Definition gen_has_format (k : Z) : bool := %s." % " || ".join("(k =? %d)" % k for k in fmts),
+           "Definition gen_fmt_size (k : Z) : Z := %s 0." % " ".join("if k =? %d then %s else" % (k, STRUCT_FORMATS[f][0]) for k, f in fmts.items()),
+           "Definition gen_unpack (k : Z) (v : list Z) : list Z :=\n  %s []." % " ".join(
+               "if k =? %d then (match v with %s => %s | _ => [] end) else" % (k, STRUCT_FORMATS[f][1], STRUCT_FORMATS[f][2]) for k, f in fmts.items())]
+    f = find_function(tree, "parse", cls="TCPOptions")
+    if [a.arg for a in f.args.args] != ["cls", "buffer"] or [a.arg for a in f.args.kwonlyargs] != ["is_syn"]:
+        fail(f, "TCPOptions.parse parameters")
+    env = Env({"buffer": ("buffer", "LIST Z"), "is_syn": ("is_syn", "B"), "OPTION_FORMATS": ("tt", "FMTS")}, c2)
+
+    def ret(v, env):
+        if not (isinstance(v, ast.Call) and dotted(v.func) == "cls" and not v.args):
+            fail(v, "expected return cls(...)")
+        kw = {k.arg: expr(k.value, env) for k in v.keywords}
+        want = {"layout": "LIST Z", "quirks": "N", "mss": "Z", "timestamp": "Z", "window_scale": "Z", "eol_padding_length": "Z"}
+        if {k: t for k, (_, t) in kw.items()} != want:
+            fail(v, "fields of the returned TCPOptions")
+        return ("(Ok {| o_layout := %s; o_quirks := %s; o_mss := %s; o_ts1 := %s; o_ws := %s; o_eol := %s |})"
+                % (kw["layout"][0], kw["quirks"][0], kw["mss"][0], kw["timestamp"][0], kw["window_scale"][0], kw["eol_padding_length"][0]))
+    body = [s for s in f.body if not (isinstance(s, ast.Expr) and isinstance(s.value, ast.Constant))]
+    # typed initialisers the generic code cannot infer: layout: List[int] = [] ; quirks = Quirk(0)
+    init = []
+    rest = []
+    for st in body:
+        tgt = st.target if isinstance(st, ast.AnnAssign) else (st.targets[0] if isinstance(st, ast.Assign) else None)
+        if isinstance(tgt, ast.Name) and ast.unparse(st.value) == "[]":
+            env.locals[tgt.id] = "LIST Z"
+            init.append("(let %s := (@nil Z) in" % tgt.id)
+        elif isinstance(tgt, ast.Name) and ast.unparse(st.value) == "Quirk(0)":
+            env.locals[tgt.id] = "N"
+            init.append("(let %s := 0%%N in" % tgt.id)
+        else:
+            rest.append(st)
+    term = block(rest, env, ret)
+    return "\n".join(pre) + "\nDefinition gen_parse_options (fuel0 : nat) (buffer : list Z) (is_syn : bool) : res topts :=\n %s\n %s%s." % (
+        "\n ".join(init), term, ")" * len(init))
+
+
 def assigned(stmts):
+    """Names (re)bound anywhere inside the statements: plain / augmented / annotated / tuple assignments and x.append(...)."""
     out = []
+
+    def add(n):
+        if n not in out:
+            out.append(n)
     for n in stmts:
         for m in ast.walk(n):
             if isinstance(m, (ast.Assign, ast.AugAssign, ast.AnnAssign)):
-                t = m.targets[0] if isinstance(m, ast.Assign) else m.target
-                if isinstance(t, ast.Name) and t.id not in out:
-                    out.append(t.id)
+                ts = m.targets if isinstance(m, ast.Assign) else [m.target]
+                for t in ts:
+                    if isinstance(t, ast.Name):
+                        add(dotted(t))
+                    elif isinstance(t, ast.Tuple):
+                        for x in t.elts:
+                            if isinstance(x, ast.Name):
+                                add(dotted(x))
+                            else:
+                                fail(m, "assignment target")
+                    else:
+                        fail(m, "assignment target")
+            elif isinstance(m, ast.Expr) and isinstance(m.value, ast.Call) and isinstance(m.value.func, ast.Attribute):
+                if m.value.func.attr == "append" and isinstance(m.value.func.value, ast.Name):
+                    add(m.value.func.value.id)
+                else:
+                    fail(m, "method call with a side effect")
+            elif isinstance(m, (ast.Delete, ast.Global, ast.Nonlocal, ast.With, ast.Try)):
+                fail(m, "statement")
     return out
 
 
-def block(stmts, env, ret, fall=None):
+def block(stmts, env, ret, fall=None, brk=None):
     """ret: function (ast expr or None) -> coq term of the function's result type; fall: term to use when control
     reaches the end of the block (loop bodies), or None when that is an error"""
     if not stmts:
@@ -224,6 +345,42 @@ def block(stmts, env, ret, fall=None):
         if fall is None:
             fail(s, "continue outside a loop")
         return fall
+    if isinstance(s, ast.Break):
+        if brk is None:
+            fail(s, "break outside a while loop")
+        return brk
+    if isinstance(s, ast.While):
+        if s.orelse:
+            fail(s, "while-else")
+        carried = [v for v in assigned(s.body) if v in env.locals]
+        saved = dict(env.locals)
+        after = block(rest, env, ret, fall, brk)
+        env.locals = dict(saved)
+        test = truthy(s.test, env)
+        args = " ".join("(%s : %s)" % (v, coq_type(env.locals[v])) for v in carried)
+        call = "(loop fuel'" + "".join(" " + v for v in carried) + ")"
+        body = block(list(s.body), env, ret, call, after)
+        env.locals = saved
+        return ("((fix loop (fuel : nat) %s {struct fuel} := match fuel with\n | O => Err OutOfFuel\n | S fuel' => if %s\n then %s\n else %s\n end) fuel0%s)"
+                % (args, test, body, after, "".join(" " + v for v in carried)))
+    if isinstance(s, ast.Expr) and isinstance(s.value, ast.Call) and isinstance(s.value.func, ast.Attribute) and s.value.func.attr == "append" \
+            and isinstance(s.value.func.value, ast.Name) and env.locals.get(s.value.func.value.id, "").startswith("LIST "):
+        x = s.value.func.value.id
+        v, tv = expr(s.value.args[0], env)
+        if "LIST " + tv != env.locals[x]:
+            fail(s, "append of a %s to a %s" % (tv, env.locals[x]))
+        return "(let %s := (%s ++ [%s]) in\n %s)" % (x, x, v, block(rest, env, ret, fall, brk))
+    if isinstance(s, ast.Assign) and len(s.targets) > 1 and all(isinstance(t, ast.Name) for t in s.targets):
+        # a = b = c = value
+        new = [ast.Assign(targets=[t], value=s.value, lineno=s.lineno) for t in s.targets]
+        return block(new + rest, env, ret, fall, brk)
+    if isinstance(s, ast.Assign) and len(s.targets) == 1 and isinstance(s.targets[0], ast.Tuple):
+        v, tv = expr(s.value, env)
+        if tv != "LIST Z":
+            fail(s, "tuple unpacking of a non-list")
+        new = [ast.Assign(targets=[t], value=ast.Subscript(value=s.value, slice=ast.Constant(value=k), ctx=ast.Load()), lineno=s.lineno)
+               for k, t in enumerate(s.targets[0].elts)]
+        return block(new + rest, env, ret, fall, brk)
     if isinstance(s, ast.For):
         if s.orelse or not isinstance(s.target, ast.Name):
             fail(s, "for loop shape")
@@ -235,7 +392,7 @@ def block(stmts, env, ret, fall=None):
         args = " ".join("(%s : %s)" % (v, coq_type(env.locals[v])) for v in carried)
         call = "loop_rest" + "".join(" " + v for v in carried)
         saved = dict(env.locals)
-        nil_case = block(rest, env, ret, fall)
+        nil_case = block(rest, env, ret, fall, brk)
         env.locals = dict(saved)
         env.locals[s.target.id] = elt
         cons_case = block(list(s.body), env, ret, "(loop %s)" % call)
@@ -249,10 +406,10 @@ def block(stmts, env, ret, fall=None):
             and (always_returns(s.body) or isinstance(s.body[-1], ast.Continue)):
         x = s.test.left.id
         saved = dict(env.locals)
-        none_case = block(list(s.body), env, ret, fall)
+        none_case = block(list(s.body), env, ret, fall, brk)
         env.locals = dict(saved)
         env.locals[x] = saved[x][4:]
-        some_case = block(rest, env, ret, fall)
+        some_case = block(rest, env, ret, fall, brk)
         env.locals = saved
         return "(match %s with\n | None => %s\n | Some %s => %s\n end)" % (x, none_case, x, some_case)
     if isinstance(s, ast.Expr) and isinstance(s.value, ast.Constant) and isinstance(s.value.value, str):
@@ -277,7 +434,7 @@ def block(stmts, env, ret, fall=None):
         name = dotted(tgt)
         saved = dict(env.locals)
         env.locals[name] = ty
-        body = block(rest, env, ret, fall)
+        body = block(rest, env, ret, fall, brk)
         env.locals = saved
         return "(let %s := %s in\n %s)" % (name, t, body)
     if isinstance(s, ast.AugAssign):
@@ -302,16 +459,21 @@ def block(stmts, env, ret, fall=None):
         elif isinstance(s.op, ast.BitOr):
             a, ta = expr(s.value, env)
             t = "(N.lor %s %s)" % (x, a)
+        elif isinstance(s.op, ast.Add) and env.locals[x] == "Z":
+            a, ta = expr(s.value, env)
+            if ta != "Z":
+                fail(s, "+= of a non-integer")
+            t = "(Z.add %s %s)" % (x, a)
         else:
             fail(s, "augmented assignment operator")
-        return "(let %s := %s in\n %s)" % (x, t, block(rest, env, ret, fall))
+        return "(let %s := %s in\n %s)" % (x, t, block(rest, env, ret, fall, brk))
     if isinstance(s, ast.If):
         c = truthy(s.test, env)
         saved = dict(env.locals)
         ends = always_returns(s.body) or (bool(s.body) and isinstance(s.body[-1], ast.Continue))
-        a = block(list(s.body) + ([] if ends else rest), env, ret, fall)
+        a = block(list(s.body) + ([] if ends else rest), env, ret, fall, brk)
         env.locals = dict(saved)
-        b = block(list(s.orelse) + rest, env, ret, fall) if (s.orelse or rest or fall is not None) else fail(s, "if without continuation")
+        b = block(list(s.orelse) + rest, env, ret, fall, brk) if (s.orelse or rest or fall is not None) else fail(s, "if without continuation")
         env.locals = saved
         return "(if %s\n then %s\n else %s)" % (c, a, b)
     fail(s, "statement")
@@ -659,7 +821,7 @@ def gen_loops(repo, consts):
 
 
 HEADER = """(* GENERATED by translate/py2coq.py from %s -- regenerated on every check run; do not edit. *)
-From PV Require Import Model.Prelude Model.Bits Model.Sig Model.Select Model.Mtu.
+From PV Require Import Model.Prelude Model.Bits Model.Sig Model.Select Model.Mtu Model.Options.
 Definition wtype_eqb (a b : wtype) : bool :=
   match a, b with WNormal, WNormal | WAny, WAny | WMod, WMod | WMss, WMss | WMtu, WMtu => true | _, _ => false end.
 Definition mtype_eqb (a b : mtype) : bool :=
@@ -669,7 +831,7 @@ Definition mtype_eqb (a b : mtype) : bool :=
 
 def main(repo, out):
     consts = common_consts(repo)
-    parts = [HEADER % repo, gen_win_multi(repo, consts), gen_match(repo, consts), gen_round(repo, consts), gen_guess(repo, consts), gen_gates(repo, consts), gen_valid(repo, consts), gen_loops(repo, consts)]
+    parts = [HEADER % repo, gen_win_multi(repo, consts), gen_match(repo, consts), gen_round(repo, consts), gen_guess(repo, consts), gen_gates(repo, consts), gen_valid(repo, consts), gen_loops(repo, consts), gen_options(repo, consts)]
     open(out, "w").write("\n\n".join(parts) + "\n")
 
 
